@@ -944,6 +944,8 @@ func c06SliceAliasInLoop(c *Ctx) {
 	keywordSources(c, "R06m", map[string][]string{"MaxLength": {"MaxBytes"}})
 	r.Rule("R06n", "the flatten and discriminated-oneof encoders remove the wrapper key whenever the field is set (never conditionally on the child's content): the wire carries only the promoted keys the schema describes", 2)
 	wrapperKeyAlwaysRemoved(c, "R06n")
+	r.Rule("R06p", "the published enum list of an enum-typed field holds every value of the enum (string and NUMBER encodings)", 2)
+	c06EnumListComplete(c, "R06p")
 	r.Rule("R06o", "children promoted from a (sebuf.http.flatten) message field are not listed in required: the keys are absent whenever the flattened field is unset, which the rules and the generated code accept", 1)
 	if pk0 := c.P.Pkg(pkgOpenAPI); pk0 != nil {
 		c19Required(c, c.oaDecls(pkgOpenAPI), pk0.TypesInfo, "R06o", true)
@@ -1048,4 +1050,77 @@ func c06SliceAliasInLoop(c *Ctx) {
 		}
 	}
 	r.OKd("R06l", "loops of internal/openapiv3 inspected for slice headers copied from outside and appended to", "", map[string]any{"loops": nLoops, "outer_slice_copies": nCopies})
+}
+
+// c06EnumListComplete — R06p. Every loop of the OpenAPI generator over an enum's values that fills a schema's `enum` list
+// lists every value: the append is a statement of the loop body itself (not under a condition on the value) and nothing in
+// the body leaves the iteration early. A value left out (the zero value "because proto3 JSON never writes the default") is
+// still on the wire in repeated fields, map values, optional fields and oneof members, and then fails the published enum.
+func c06EnumListComplete(c *Ctx, rid string) {
+	r := c.R
+	pk := c.P.Pkg(pkgOpenAPI)
+	if pk == nil {
+		r.Unres(rid, pkgOpenAPI, "", "package not loaded")
+		return
+	}
+	info := pk.TypesInfo
+	n := 0
+	for _, nf := range sortedFuncNames(c.oaDecls(pkgOpenAPI)) {
+		decl := c.oaDecls(pkgOpenAPI)[nf.fn]
+		if decl == nil || decl.Body == nil {
+			continue
+		}
+		ast.Inspect(decl.Body, func(nd ast.Node) bool {
+			rs, ok := nd.(*ast.RangeStmt)
+			if !ok || !strings.HasSuffix(types.ExprString(rs.X), ".Enum.Values") {
+				return true
+			}
+			// does the loop fill an `Enum` list?
+			fills := false
+			ast.Inspect(rs.Body, func(m ast.Node) bool {
+				if as, ok := m.(*ast.AssignStmt); ok && len(as.Lhs) == 1 {
+					if sel, ok := ast.Unparen(as.Lhs[0]).(*ast.SelectorExpr); ok && sel.Sel.Name == "Enum" {
+						fills = true
+					}
+				}
+				return true
+			})
+			if !fills {
+				return true
+			}
+			n++
+			topLevel := false
+			for _, st := range rs.Body.List {
+				if as, ok := st.(*ast.AssignStmt); ok && len(as.Lhs) == 1 && len(as.Rhs) == 1 {
+					if sel, ok := ast.Unparen(as.Lhs[0]).(*ast.SelectorExpr); ok && sel.Sel.Name == "Enum" {
+						if call, ok := ast.Unparen(as.Rhs[0]).(*ast.CallExpr); ok && types.ExprString(call.Fun) == "append" {
+							topLevel = true
+						}
+					}
+				}
+			}
+			early := ""
+			ast.Inspect(rs.Body, func(m ast.Node) bool {
+				switch x := m.(type) {
+				case *ast.FuncLit:
+					return false
+				case *ast.BranchStmt:
+					if x.Tok == token.CONTINUE || x.Tok == token.BREAK {
+						early = x.Tok.String()
+					}
+				case *ast.ReturnStmt:
+					early = "return"
+				}
+				return true
+			})
+			_ = info
+			key := fmt.Sprintf("%s: loop %d over %s lists every value in the schema's enum", nf.name, n, types.ExprString(rs.X))
+			r.Check(topLevel && early == "", rid, key, c.P.Pos(rs.Pos()),
+				fmt.Sprintf("%s fills the schema's enum list from %s but not with every value (append unconditional in the loop body: %v; early exit: %q): a value that is left out is still written by the generated servers and clients — in repeated fields, map values, optional fields, oneof members — and fails the published enum", nf.name, types.ExprString(rs.X), topLevel, early))
+			return true
+		})
+	}
+	if n == 0 {
+		r.Unres(rid, "enum-list loops of internal/openapiv3", "", "no loop over .Enum.Values that fills a schema's enum list")
+	}
 }
